@@ -35,11 +35,28 @@ def enc(v):
     return v
 
 
-def evaluate(e, db, betas):
+def evaluate(e, db, betas, python=False):
     if not isinstance(e, Expression):
         e = Numeric(float(e))
+    if python:
+        # the pure-Python evaluator (Expression.get_value): trees without variables; Betas at their init value
+        return [enc(e.get_value())]
+    if db is None:
+        return [enc(e.get_value_c(betas=betas, prepare_ids=True))]
     vals = e.get_value_c(database=db, betas=betas, prepare_ids=True)
     return [enc(v) for v in vals]
+
+
+def snapshot(d):
+    return None if d is None else [(k, id(v), v if not isinstance(v, Expression) else None) for k, v in d.items()]
+
+
+def same_snapshot(d, snap):
+    if d is None or snap is None:
+        return d is None and snap is None
+    now = [(k, id(v), v if not isinstance(v, Expression) else None) for k, v in d.items()]
+    return len(now) == len(snap) and all(a[0] == b[0] and (a[1] == b[1] or (a[2] is not None and a[2] == b[2] and type(a[2]) is type(b[2])))
+                                         for a, b in zip(now, snap))
 
 
 def shifted(util, shift, bump):
@@ -67,11 +84,47 @@ def run_call(c, call, db, betas):
     syntax = call.get('syntax', 'legacy')
     mu = B.mk_pv(call.get('mu', c.get('mu')))
 
-    def nests_n():
-        return B.nested_args(cc, syntax)
+    py = bool(call.get('python'))
+    cache = {}
+
+    def nests_n():          # ONE nests object for all the alternatives of the call, as a user would write it
+        if 'n' not in cache:
+            cache['n'] = B.nested_args(cc, syntax)
+        return cache['n']
 
     def nests_c():
-        return B.cnl_args(cc, syntax)
+        if 'c' not in cache:
+            cache['c'] = B.cnl_args(cc, syntax)
+        return cache['c']
+
+    lg = B.mk_dict(call.get('log_gi', c.get('log_gi')))
+    corr = B.mk_dict(call.get('correction', c.get('correction')))
+    snaps = {'util': snapshot(util), 'av': snapshot(av), 'log_gi': snapshot(lg), 'correction': snapshot(corr)}
+
+    def mutated():
+        return [nm for nm, d in (('util', util), ('av', av), ('log_gi', lg), ('correction', corr))
+                if not same_snapshot(d, snaps[nm])]
+
+    if fn == 'es_dist':
+        # whole distribution of the MEV model with endogenous-sampling correction: one call per alternative and
+        # per function with the SAME dictionaries; order = list of [function, alternative]
+        res = {'P': {}, 'logP': {}, 'order': call['order']}
+        if want_trees:
+            res['trees'] = {}
+        for f, i in call['order']:
+            i = int(i)
+            try:
+                if f == 'P':
+                    e = models.mev_endogenous_sampling(util, lg, av, corr, i)
+                else:
+                    e = models.logmev_endogenous_sampling(util, lg, av, corr, i)
+                res[f][str(i)] = evaluate(e, db, betas, py)
+                if want_trees and f == 'P':
+                    res['trees'][str(i)] = expr_to_json(e)
+            except Exception as ex:  # noqa
+                res[f][str(i)] = {'exc': f'{type(ex).__name__}: {str(ex)[:120]}'}
+        res['mutated'] = mutated()
+        return res
 
     if fn in ('ordered_logit', 'ordered_probit'):
         x = B.mk_expr(call['x'])
@@ -79,7 +132,7 @@ def run_call(c, call, db, betas):
         f = models.ordered_logit if fn == 'ordered_logit' else models.ordered_probit
         d = f(continuous_value=x, list_of_discrete_values=list(call['vals']), tau_parameter=tau)
         for k, e in d.items():
-            res['alts'][str(k)] = evaluate(e, db, betas)
+            res['alts'][str(k)] = evaluate(e, db, betas, py)
             if want_trees:
                 res['trees'][str(k)] = expr_to_json(e)
         return res
@@ -102,7 +155,7 @@ def run_call(c, call, db, betas):
             d = av if av is not None else {k: 1 for k in util}
         for k, e in d.items():
             try:
-                res['alts'][str(k)] = evaluate(e, db, betas)
+                res['alts'][str(k)] = evaluate(e, db, betas, py)
             except Exception as ex:  # noqa
                 res['alts'][str(k)] = {'exc': f'{type(ex).__name__}: {str(ex)[:120]}'}
         return res
@@ -110,7 +163,7 @@ def run_call(c, call, db, betas):
         if fn in ('logit', 'loglogit'):
             e = getattr(models, fn)(util, av, i)
         elif fn in ('mev', 'logmev'):
-            e = getattr(models, fn)(util, B.mk_dict(call.get('log_gi', c.get('log_gi'))), av, i)
+            e = getattr(models, fn)(util, lg, av, i)
         elif fn in ('nested', 'lognested'):
             e = getattr(models, fn)(util, av, nests_n(), i)
         elif fn in ('nested_mev_mu', 'lognested_mev_mu'):
@@ -122,18 +175,19 @@ def run_call(c, call, db, betas):
         else:
             raise ValueError(f'unknown fn {fn}')
         try:
-            res['alts'][str(i)] = evaluate(e, db, betas)
+            res['alts'][str(i)] = evaluate(e, db, betas, py)
         except Exception as ex:  # noqa
             res['alts'][str(i)] = {'exc': f'{type(ex).__name__}: {str(ex)[:120]}'}
         if want_trees:
             res['trees'][str(i)] = expr_to_json(e)
+    res['mutated'] = mutated()
     return res
 
 
 def run_case(c):
     out = {}
     try:
-        db = Database('t', pd.DataFrame(c['rows']))
+        db = None if (c.get('python') or not c.get('rows')) else Database('t', pd.DataFrame(c['rows']))
     except Exception as ex:  # noqa
         return {'exc': f'database: {type(ex).__name__}: {str(ex)[:200]}'}
     betas = dict(c.get('betas') or {})
